@@ -33,6 +33,7 @@ struct QueTarget
     uint64_t stamp = 0;
     uint32_t keyspace = 16;
     size_t maxlen = 40;
+    bool fault_plan = false;
     int64_t bern_permille = 0; uint64_t bern_seed = 0;
     bool mac = false; // this op goes through the typed upper-case macro forms
     explicit QueTarget(Ctx &c_) : c(c_), run(c_) {}
@@ -206,7 +207,8 @@ struct QueTarget
         keyspace = (uint32_t)std::max<int64_t>(1, p.knob("keyspace", 16));
         g_cmp_style = (int)(p.knob("cmpstyle", 0) % 3);
         maxlen = (size_t)std::max<int64_t>(1, p.knob("maxlen", 40));
-        size_t const z0 = ELEM_SIZES[(size_t)p.knob("zsel", 4) % N_ELEM_SIZES];
+        fault_plan = p.prop == "C07"; // a property of the plan, the same in its fault-free and in its faulted executions
+        size_t const z0 = ELEM_SIZES[(size_t)p.knob("zsel", 4) % N_ELEM_SIZES_ALL];
         bool const heap0 = p.knob("heap", 1) != 0;
         if (!create(box[0], heap0, z0) || !create(box[1], !heap0, z0)) return;
         for (size_t i = 0; i < p.ops.size() && c.ok(); ++i)
@@ -220,6 +222,7 @@ struct QueTarget
             ++c.steps;
             c.obs((uint64_t)o.kind);
             observe(box[0]); observe(box[1]);
+            if (fault_plan && g_heavy_plan) break; // a fault-enumerated history ends after its very long op (every execution repeats the fill)
         }
         SA.clear_fault(); run.persistent_active = false;
         if (c.ok())
@@ -272,6 +275,30 @@ struct QueTarget
             c.st.add("probe.que_burst");
             auto fill = [&](size_t k) { for (size_t i = 0; i < k && c.ok(); ++i) { size_t before = x.M.size(); do_push(x, "a_que_push_back", [&] { return a_que_push_back(q); }, (long)x.M.size(), o.a[2] + (int64_t)i); if (x.M.size() == before) break; } };
             auto drain = [&](bool fore) { size_t guard = 0; while (c.ok() && !x.M.empty() && guard++ < 400) { size_t before = x.M.size(); if (fore) do_pull(x, "a_que_pull_fore", [&] { return a_que_pull_fore(q); }, 0); else do_pull(x, "a_que_pull_back", [&] { return a_que_pull_back(q); }, x.M.size() - 1); if (x.M.size() == before) break; } };
+            if (kind == 2 && x.z <= 32 && (fault_plan ? ((uint64_t)(o.a[2] < 0 ? -o.a[2] : o.a[2]) % 50) == 49 : ((uint64_t)(o.a[2] < 0 ? -o.a[2] : o.a[2]) % 500) == 299))
+            { // a rare very long queue (70 000 elements, checked once at the end instead of after every push), dropped in one call
+              // and used again: sizes three orders of magnitude beyond the ordinary histories, where pool thresholds live
+                size_t const H = 70000; c.logf("  very long queue: %zu elements of %zu bytes\n", H, x.z);
+                c.st.add("probe.que_very_long_then_dropped"); g_heavy_plan = true; g_heavy_op = c.opi;
+                c.site("a_que_push_back");
+                SA.suspended = true; // the fill is preparation: allocation failures are aimed at the drop and at what follows
+                for (size_t i = 0; i < H; ++i)
+                {
+                    void *np = a_que_push_back(q);
+                    if (!np) { c.fail("unexpected-failure", "a_que_push_back", "returned NULL with memory available (element %zu of a long fill)", i); break; }
+                    QElem e; e.addr = np; e.bytes = fresh(x, (int64_t)i); memcpy(np, e.bytes.data(), x.z); x.M.push_back(e);
+                }
+                SA.suspended = false;
+                if (!c.ok() || !check(x, "a_que_push_back")) break;
+                int ret = 0;
+                int rc = run.api("a_que_drop", [&] { ret = a_que_drop(q, nullptr); return ret == 0; }, [&] { return check(x, "a_que_drop"); });
+                if (rc == SeqRun::API_FAULTED) break; // a persistent failure: the queue keeps its 70 000 elements, as checked
+                if (rc != SeqRun::API_OK) { if (rc != SeqRun::API_VIOLATION) c.fail("unexpected-failure", "a_que_drop", "returned %d with memory available", ret); break; }
+                x.M.clear();
+                if (!check(x, "a_que_drop")) break;
+                fill(3); drain((o.a[3] & 1) != 0);
+                break;
+            }
             if (kind == 0) { fill(n); drain(true); }
             else if (kind == 1) { fill(n); drain(false); fill(n / 2); }
             else if (kind == 2)
